@@ -75,6 +75,11 @@ claim('C19', 'devx-full',
       'A: full product of 2 246 480 issuer strings (scheme x separator x userinfo x host x port x path x query x fragment) x insecure on/off against StaticIssuer (and NewProvider for each accepted string); construction is allowed only for https (any case) or http+insecure, with a non-empty host, no non-empty query and no non-empty fragment, judged on the RFC 3986 appendix-B decomposition (independent of net/url). B: full product of 12 960 derivation cases (configured path x insecure x Host x 15 Forwarded header shapes incl. multiple lines / elements / quoting / malformed x issuer mode x header placement x request path x X-Forwarded-Proto), observed on IssuerFromRequest and on the entityID of the served metadata.',
       'A bare ? or # is not counted as query/fragment; malformed Forwarded values may resolve either way.', '§5 C19')
 
+claim('C14', 'devx-grid',
+      'exhaustive enumeration of a size x placement x validity x entry grid, each case one real request in a fresh worker process with an instrumented inflater',
+      'Grid of inflated sizes {1, 8, 32, 64 MiB; thorough adds 256 MiB and 1 GiB} x padding placement {comment, text, attribute value, after the root element} x surrounding request {valid, invalid} x entry point {SSO query, SSO form, logout form, logout query}. The overlay replaces flate.NewReader by a counting pass-through reader: the bytes one inflater delivers must stay <= 20 MiB, the TotalAlloc delta across ServeHTTP must stay <= 160 MiB (measured in a single-request worker process), and a payload above the bound must not be accepted.',
+      'The byte counter sits on compress/flate; if a change swaps the inflater the allocation clause still decides. Ratios/placements outside the grid rest on the observation that the cap is enforced by the reader independent of content.', '§5 C14')
+
 NOT_YET = {i: 'check not built yet in this revision (planned: see DESIGN.md §5 %s); not claimed until its machinery exists' % i for i in ids}
 
 def main():
